@@ -365,23 +365,31 @@ theorem call_selCtx (k : KeyArg) (p : Val → Res) (r : Bool) (v : Item) :
   | valueError => rfl
   | typeError => rfl
 
+@[simp] theorem pep479_ok (b : Bool) : pep479 (.ok b) = .ok b := rfl
+
+theorem pep479e_idem (e : String) : pep479e (pep479e e) = pep479e e := by
+  unfold pep479e
+  by_cases h : e = "Other:StopIteration"
+  · simp [h]
+  · simp [h]
+
 theorem semAny_eq_orRes (r : Bool) (l : List Spec) (v : Item) :
-    semAny names r l v = orRes (l.map (fun s => sem names r s v)) := by
+    semAny names r l v = orRes (l.map (fun s => pep479 (sem names r s v))) := by
   induction l with
   | nil => simp [semAny, orRes]
   | cons s rest ih =>
     simp only [semAny, List.map_cons]
-    cases h : sem names r s v with
+    cases h : pep479 (sem names r s v) with
     | ok b => cases b <;> simp [orRes, ih]
     | raise e => simp [orRes]
 
 theorem semAll_eq_andRes (r : Bool) (l : List Spec) (v : Item) :
-    semAll names r l v = andRes (l.map (fun s => sem names r s v)) := by
+    semAll names r l v = andRes (l.map (fun s => pep479 (sem names r s v))) := by
   induction l with
   | nil => simp [semAll, andRes]
   | cons s rest ih =>
     simp only [semAll, List.map_cons]
-    cases h : sem names r s v with
+    cases h : pep479 (sem names r s v) with
     | ok b => cases b <;> simp [andRes, ih]
     | raise e => simp [andRes]
 
@@ -597,7 +605,7 @@ theorem semL_false : ∀ (l : List Spec) (v : Item), allRoeL false l = true → 
     simp only [allRoeL, hasBadL, keysOkL, Bool.and_eq_true, Bool.or_eq_false_iff] at ha hb hk
     have h1 := sem_false s v ha.1 hk.1 hb.1
     have h2 := semL_false rest v ha.2 hk.2 hb.2
-    simp only [semAll, semAny, semBAll, semBAny, h1]
+    simp only [semAll, semAny, semBAll, semBAny, h1, pep479_ok]
     cases semB names s v <;> simp [h2.1, h2.2]
 end
 
@@ -640,7 +648,7 @@ theorem semL_total : ∀ (l : List Spec) (r : Bool) (v : Item), totalOnL names v
     simp only [totalOnL, hasBadL, Bool.and_eq_true, Bool.or_eq_false_iff] at ht hb
     have h1 := sem_total s r v ht.1 hb.1
     have h2 := semL_total rest r v ht.2 hb.2
-    simp only [semAll, semAny, semBAll, semBAny, h1]
+    simp only [semAll, semAny, semBAll, semBAny, h1, pep479_ok]
     cases semB names s v <;> simp [h2.1, h2.2]
 end
 
@@ -1600,5 +1608,28 @@ theorem groupsAddG_groupsOfG {K : Type} [DecidableEq K] (key : Item → K) (xs :
         intro e
         exact h (List.mem_map.2 ⟨w, hw, e⟩)
       simp [h, hf, List.filter_append]
+
+/-! ### known keys -/
+
+theorem idxOf_inj_of_mem {names : List String} {a b : String} (ha : a ∈ names)
+    (h : names.idxOf a = names.idxOf b) : a = b := by
+  have hlt : names.idxOf a < names.length := List.idxOf_lt_length_iff.2 ha
+  have hb : b ∈ names := by
+    rw [← List.idxOf_lt_length_iff, ← h]; exact hlt
+  have e1 := List.getElem_idxOf hlt
+  have hlt' : names.idxOf b < names.length := List.idxOf_lt_length_iff.2 hb
+  have e2 := List.getElem_idxOf hlt'
+  rw [← e1, ← e2]
+  congr 1
+
+/-- over known keys, different dotted keys are different index paths: the model does not conflate them -/
+theorem idxPath_inj (names : List String) : ∀ (ks1 ks2 : List String), (∀ k ∈ ks1, k ∈ names) →
+    ks1.map names.idxOf = ks2.map names.idxOf → ks1 = ks2
+  | [], [], _, _ => rfl
+  | [], _ :: _, _, h => by simp at h
+  | _ :: _, [], _, h => by simp at h
+  | a :: r1, b :: r2, hk, h => by
+    simp only [List.map_cons, List.cons.injEq] at h
+    rw [idxOf_inj_of_mem (hk a (by simp)) h.1, idxPath_inj names r1 r2 (fun k hk' => hk k (by simp [hk'])) h.2]
 
 end Lena.C15
